@@ -54,7 +54,7 @@ class Run(object):
     self.calls.append((name, n))
     r = per_inv(beh.get('ret', ['ok']), n - 1)
     m = per_inv(beh.get('meas', 'none'), n - 1)
-    if r in ('hang', 'hangdeaf'):
+    if r in ('hang', 'hangdeaf', 'hangswallow'):
       result = 'TIMEOUT'
     elif r == 'raise':
       result = 'EXC:PhaseBoom'
